@@ -40,6 +40,15 @@ inductive CMode where
   | bitmap | gray | rgb | cmyk
   deriving DecidableEq, Repr, Inhabited
 
+def Mode.name : Mode → String
+  | .one => "1" | .L => "L" | .LA => "LA" | .RGB => "RGB" | .RGBA => "RGBA" | .CMYK => "CMYK"
+
+def CMode.name : CMode → String
+  | .bitmap => "BITMAP" | .gray => "GRAYSCALE" | .rgb => "RGB" | .cmyk => "CMYK"
+
+def Mode.all : List Mode := [.one, .L, .LA, .RGB, .RGBA, .CMYK]
+def CMode.all : List CMode := [.bitmap, .gray, .rgb, .cmyk]
+
 def Mode.nbands : Mode → Nat
   | .one => 1 | .L => 1 | .LA => 2 | .RGB => 3 | .RGBA => 4 | .CMYK => 4
 
@@ -145,12 +154,14 @@ structure Image (α : Type) where
   height : Nat
   /-- planes in PIL band order, `width * height` samples each -/
   bands : List (List α)
-  deriving Repr
+  deriving Repr, DecidableEq
 
 def Image.WF {α : Type} (i : Image α) : Prop :=
   i.bands.length = i.mode.nbands ∧ ∀ b ∈ i.bands, b.length = i.width * i.height
 
 /-- Sample-level operations. `α`: an 8-bit PIL sample, `σ`: a sample as stored at a depth. -/
+instance {α : Type} (i : Image α) : Decidable i.WF := by unfold Image.WF; infer_instance
+
 structure Px (α σ : Type) where
   /-- `ImageChops.invert` -/
   inv : α → α
@@ -221,28 +232,32 @@ structure LayerRec (σ : Type) where
   channels : List (Int × List σ)
   deriving Repr
 
+/-- The part of `PixelLayer.frompil` after the conversion to the document's mode: CMYK
+inversion; transparency channel (id −1) first — the source alpha, or opaque — then the colour
+channels 0 … n−1; every plane at the document depth. -/
+def layerOfConverted {α σ : Type} (P : Px α σ) (alpha : Option (List α)) (img : Image α)
+    (depth : Nat) (top left : Int) : Except Err (LayerRec σ) :=
+  let img := if img.mode = .CMYK then img.invert P else img
+  let a := match alpha with
+    | some a => a
+    | none => List.replicate (img.width * img.height) P.full
+  match traverse (fun k => (getBand img k).map fun b => ((k : Int), b.map (P.store depth)))
+      (List.range img.mode.base.pilChannels) with
+  | .error e => .error e
+  | .ok colour =>
+    .ok { top := top, left := left, bottom := top + img.height, right := left + img.width,
+          channels := ((-1 : Int), a.map (P.store depth)) :: colour }
+
 /-- `PixelLayer.frompil(pil_im, psd_file, name, top, left, compression)`:
-"1" → "L"; the source alpha is taken before the conversion; conversion to the
-document's `pil_mode`; CMYK inversion; transparency channel (id −1) first —
-the source alpha, or opaque — then the colour channels 0 … n−1; every plane at
-the document depth. -/
+"1" → "L"; the source alpha is taken before the conversion
+(`pil_im.convert("RGBA").getchannel("A")` when `has_transparency_data`); conversion to the
+document's `pil_mode`; then `layerOfConverted`. -/
 def layerImport {α σ : Type} (C : Pil α) (P : Px α σ) (img : Image α) (hdr : Header)
     (top left : Int) : Except Err (LayerRec σ) :=
   let img := if img.mode = .one then C.conv .L img else img
   match (if img.mode.hasAlpha then (getBand (C.conv .RGBA img) 3).map some else .ok none) with
   | .error e => .error e
-  | .ok alpha =>
-    let img := C.conv hdr.pilMode img
-    let img := if img.mode = .CMYK then img.invert P else img
-    let a := match alpha with
-      | some a => a
-      | none => List.replicate (img.width * img.height) P.full
-    match traverse (fun k => (getBand img k).map fun b => ((k : Int), b.map (P.store hdr.depth)))
-        (List.range img.mode.base.pilChannels) with
-    | .error e => .error e
-    | .ok colour =>
-      .ok { top := top, left := left, bottom := top + img.height, right := left + img.width,
-            channels := ((-1 : Int), a.map (P.store hdr.depth)) :: colour }
+  | .ok alpha => layerOfConverted P alpha (C.conv hdr.pilMode img) hdr.depth top left
 
 /-! ### export: routes -/
 
@@ -402,6 +417,20 @@ def exportLayerAlpha {α σ : Type} (P : Px α σ) (hdr : Header) (l : LayerRec 
 def exportLayerNumpy {σ β : Type} (V : View σ β) (hdr : Header) (l : LayerRec σ) :
     Except Err (List (List β)) :=
   applyRoutes V (l.channels.map (·.2)) (numpyLayerRoutes hdr (l.channels.map (·.1)))
+
+/-! ### what the property expects (used in the statements of Props/C07) -/
+
+/-- the documented normalisation of the source: bitmap images become grayscale -/
+def normalise {α : Type} (C : Pil α) (img : Image α) : Image α :=
+  if img.mode = .one then C.conv .L img else img
+
+/-- the alpha band of a source image, if it has one -/
+def srcAlpha {α : Type} (img : Image α) : Option (List α) :=
+  if img.mode.hasAlpha then img.bands.getLast? else none
+
+/-- PIL mode of a layer export: a layer always carries a transparency band where PIL has one -/
+def layerPilMode : CMode → Mode
+  | .gray => .LA | .rgb => .RGBA | .cmyk => .CMYK | .bitmap => .one
 
 /-! ### the symbolic instance: provenance of every exported sample
 
